@@ -6,6 +6,81 @@ Open Scope string_scope.
 Open Scope list_scope.
 Open Scope N_scope.
 
+Section CV.
+Variable cv : variant.
+Local Notation is_simple_id := (SmtSer.is_simple_id cv) (only parsing).
+Local Notation escape_id := (SmtSer.escape_id cv) (only parsing).
+Local Notation ser := (SmtSer.ser cv) (only parsing).
+Local Notation ser_cmd := (SmtSer.ser_cmd cv) (only parsing).
+Local Notation name_ok := (SmtSer.name_ok cv) (only parsing).
+Local Notation declared := (SmtSer.declared cv) (only parsing).
+Local Notation symbols_declared := (SmtSer.symbols_declared cv) (only parsing).
+Local Notation lx_go := (SmtLex.lx_go cv) (only parsing).
+Local Notation lex_impl := (SmtLex.lex_impl cv) (only parsing).
+Local Notation early_other := (SmtParse.early_other cv) (only parsing).
+Local Notation early_parse := (SmtParse.early_parse cv) (only parsing).
+Local Notation step := (SmtParse.step cv) (only parsing).
+Local Notation run := (SmtParse.run cv) (only parsing).
+Local Notation parse_eot := (SmtParse.parse_eot cv) (only parsing).
+Local Notation parse_expr_internal := (SmtParse.parse_expr_internal cv) (only parsing).
+Local Notation parse_type := (SmtParse.parse_type cv) (only parsing).
+Local Notation parse_expr_toks := (SmtParse.parse_expr_toks cv) (only parsing).
+Local Notation parse_expr_str := (SmtParse.parse_expr_str cv) (only parsing).
+Local Notation skip_expr := (SmtParse.skip_expr cv) (only parsing).
+Local Notation parse_get_value_response_toks := (SmtParse.parse_get_value_response_toks cv) (only parsing).
+Local Notation parse_get_value_response_str := (SmtParse.parse_get_value_response_str cv) (only parsing).
+Local Notation parse_expr_list_go := (SmtParse.parse_expr_list_go cv) (only parsing).
+Local Notation parse_expr_list_rest := (SmtParse.parse_expr_list_rest cv) (only parsing).
+Local Notation parse_unsat_assumptions_toks := (SmtParse.parse_unsat_assumptions_toks cv) (only parsing).
+Local Notation parse_unsat_assumptions_str := (SmtParse.parse_unsat_assumptions_str cv) (only parsing).
+Local Notation parse_command_body := (SmtParse.parse_command_body cv) (only parsing).
+Local Notation parse_command_toks := (SmtParse.parse_command_toks cv) (only parsing).
+Local Notation parse_command_str := (SmtParse.parse_command_str cv) (only parsing).
+Local Notation count_parens := (SmtParse.count_parens cv) (only parsing).
+Local Notation rc_balance := (SmtParse.rc_balance cv) (only parsing).
+Local Notation read_command := (SmtParse.read_command cv) (only parsing).
+Local Notation is_simple_id_loop := (SmtSerLemmas.is_simple_id_loop cv) (only parsing).
+Local Notation is_simple_id_chars := (SmtSerLemmas.is_simple_id_chars cv) (only parsing).
+Local Notation is_simple_id_first := (SmtSerLemmas.is_simple_id_first cv) (only parsing).
+Local Notation escape_sound_gen := (SmtSerLemmas.escape_sound_gen cv) (only parsing).
+Local Notation escape_sound_lemma := (SmtSerLemmas.escape_sound_lemma cv) (only parsing).
+Local Notation good := (SmtSerProofs.good cv) (only parsing).
+Local Notation symbols_declared_app := (SmtSerProofs.symbols_declared_app cv) (only parsing).
+Local Notation name_ok_facts := (SmtSerProofs.name_ok_facts cv) (only parsing).
+Local Notation symbol_good := (SmtSerProofs.symbol_good cv) (only parsing).
+Local Notation ser_core := (SmtSerProofs.ser_core cv) (only parsing).
+Local Notation ser_eq := (SmtSerProofs.ser_eq cv) (only parsing).
+Local Notation core_good := (SmtSerProofs.core_good cv) (only parsing).
+Local Notation wrap_good_e := (SmtSerProofs.wrap_good_e cv) (only parsing).
+Local Notation ser_good := (SmtSerProofs.ser_good cv) (only parsing).
+Local Notation ser_sorted_sound_lemma := (SmtSerProofs.ser_sorted_sound_lemma cv) (only parsing).
+Local Notation name_ok_intro := (SmtSerProofs.name_ok_intro cv) (only parsing).
+Local Notation noop_slice_latent := (SmtSerProofs.noop_slice_latent cv) (only parsing).
+Local Notation cont := (SmtParseProofs.cont cv) (only parsing).
+Local Notation runs_to := (SmtParseProofs.runs_to cv) (only parsing).
+Local Notation run_cons := (SmtParseProofs.run_cons cv) (only parsing).
+Local Notation cont_nonempty := (SmtParseProofs.cont_nonempty cv) (only parsing).
+Local Notation run_items := (SmtParseProofs.run_items cv) (only parsing).
+Local Notation run_group := (SmtParseProofs.run_group cv) (only parsing).
+Local Notation runs_value := (SmtParseProofs.runs_value cv) (only parsing).
+Local Notation runs_escaped := (SmtParseProofs.runs_escaped cv) (only parsing).
+Local Notation atom_item := (SmtParseProofs.atom_item cv) (only parsing).
+Local Notation sxi := (SmtParseProofs.sxi cv) (only parsing).
+Local Notation sxi_list := (SmtParseProofs.sxi_list cv) (only parsing).
+Local Notation sxi_list_eq := (SmtParseProofs.sxi_list_eq cv) (only parsing).
+Local Notation machine_sx := (SmtParseProofs.machine_sx cv) (only parsing).
+Local Notation early_plain := (SmtParseProofs.early_plain cv) (only parsing).
+Local Notation early_other_lookup := (SmtParseProofs.early_other_lookup cv) (only parsing).
+Local Notation early_other_kw := (SmtParseProofs.early_other_kw cv) (only parsing).
+Local Notation simple_plain := (SmtParseProofs.simple_plain cv) (only parsing).
+Local Notation table_for := (SmtParseProofs.table_for cv) (only parsing).
+Local Notation keys_ok := (SmtParseProofs.keys_ok cv) (only parsing).
+Local Notation theory_not_ok := (SmtParseProofs.theory_not_ok cv) (only parsing).
+Local Notation atom_head := (SmtParseProofs.atom_head cv) (only parsing).
+Local Notation simple_not_kw := (SmtParseProofs.simple_not_kw cv) (only parsing).
+Local Notation atom_symbol := (SmtParseProofs.atom_symbol cv) (only parsing).
+
+
 (** ** what [parse_pattern] does on the groups the writer produces *)
 
 Lemma bin_op2 st a b op k r : op a b = POk r -> bin_op st [IExpr a; IExpr b] op k = POk (IExpr r).
@@ -100,20 +175,22 @@ Proof. intros Ha Hb. unfold mk_concat, bvw. now rewrite Ha, Hb. Qed.
 
 Section Ser.
   Variable st : nst.
-  Hypothesis Hkeys : forall n, name_ok n = false \/ all_digits n = true -> nst_get st n = None.
+  Hypothesis Hkeys : keys_ok st.
 
-  Lemma head_item h : plain_value h = true -> name_ok h = false ->
+  Lemma head_item h : plain_value h = true -> head_kw h = true ->
     match h with String c _ => Ascii.eqb c c_bar = false | EmptyString => True end ->
     sxi st (SxAtom h) = POk (ISym h).
   Proof.
-    intros Hp Hn Hb. cbn [sxi]. rewrite (atom_head st h Hp (or_introl Hn) Hkeys Hb). reflexivity.
+    intros Hp Hn Hb. cbn [SmtParseProofs.sxi]. rewrite (atom_head st h Hp Hn Hkeys Hb). reflexivity.
   Qed.
 
   Lemma numeral_item k : sxi st (SxAtom (dec_string k)) = POk (ISym (dec_string k)).
   Proof.
-    cbn [sxi].
+    cbn [SmtParseProofs.sxi].
     pose proof (dec_string_digits k) as Hd.
-    rewrite (atom_head st _ (digits_plain _ Hd) (or_intror Hd) Hkeys); [reflexivity|].
+    assert (Hk : head_kw (dec_string k) = true).
+    { unfold head_kw, kw_tok. unfold all_digits in Hd. rewrite Hd. cbn [orb]. now rewrite orb_true_r. }
+    rewrite (atom_head st _ (digits_plain _ Hd) Hk Hkeys); [reflexivity|].
     destruct (all_digits_first _ Hd) as (c & r & E & Hc & _). rewrite E.
     clear -Hc. revert Hc. all_ascii c; vm_compute; intros H; first [reflexivity | discriminate H].
   Qed.
@@ -121,7 +198,7 @@ Section Ser.
   (** sorts *)
   Lemma bitvec_item w : w < 2 ^ 32 -> sxi st (bitvec_sx w) = POk (IType (TBV w)).
   Proof.
-    intros Hw. unfold bitvec_sx. rewrite sxi_list_eq. cbn [sxi_list].
+    intros Hw. unfold bitvec_sx. rewrite sxi_list_eq. cbn [SmtParseProofs.sxi_list].
     rewrite (head_item "_" eq_refl eq_refl eq_refl), (head_item "BitVec" eq_refl eq_refl eq_refl), numeral_item.
     cbn [pbind]. unfold parse_pattern.
     change (String.eqb "_" "not" || String.eqb "_" "bvnot") with false.
@@ -144,7 +221,7 @@ Section Ser.
     intros Hi Hd. pose proof (elem_item iw Hi) as Ei. pose proof (elem_item dw Hd) as Ed.
     assert (G : forall x y, sxi st x = POk (IType (TBV iw)) -> sxi st y = POk (IType (TBV dw)) ->
                 sxi st (SxList [SxAtom "Array"; x; y]) = POk (IType (TArr iw dw))).
-    { intros x y Hx Hy. rewrite sxi_list_eq. cbn [sxi_list].
+    { intros x y Hx Hy. rewrite sxi_list_eq. cbn [SmtParseProofs.sxi_list].
       rewrite (head_item "Array" eq_refl eq_refl eq_refl), Hx, Hy. reflexivity. }
     cbn [ser_type]. destruct (iw =? 1), (dw =? 1); apply G; assumption.
   Qed.
@@ -156,7 +233,7 @@ Section Ser.
     match a with String c _ => Ascii.eqb c c_bar = false | EmptyString => False end ->
     sxi st (SxAtom a) = POk (IExpr (BVLiteral w v)).
   Proof.
-    intros H Hb. cbn [sxi]. unfold atom_item, ltok_of_atom. destruct a as [|c r]; [contradiction|].
+    intros H Hb. cbn [SmtParseProofs.sxi]. unfold SmtParseProofs.atom_item, ltok_of_atom. destruct a as [|c r]; [contradiction|].
     rewrite Hb, H. reflexivity.
   Qed.
 
@@ -167,7 +244,7 @@ Section Ser.
     intros Hc Ht. unfold wrap, rt_wrap, is_1bit. destruct (type_of e) as [w | i d] eqn:Et; [|exact Hc].
     destruct (N.eqb_spec w 1) as [-> | _]; [|exact Hc].
     destruct mb, (produces_bv e); cbn [andb negb]; try exact Hc.
-    - rewrite sxi_list_eq. cbn [sxi_list]. rewrite (head_item "ite" eq_refl eq_refl eq_refl), Hc.
+    - rewrite sxi_list_eq. cbn [SmtParseProofs.sxi_list]. rewrite (head_item "ite" eq_refl eq_refl eq_refl), Hc.
       rewrite (lit_item "#b1" 1 1 eq_refl eq_refl), (lit_item "#b0" 1 0 eq_refl eq_refl). cbn [pbind].
       unfold parse_pattern.
       change (String.eqb "ite" "not" || String.eqb "ite" "bvnot") with false.
@@ -175,7 +252,7 @@ Section Ser.
       change (assoc_str "ite" binop_table) with (@None ((expr -> expr -> pres expr) * nary)). cbv iota.
       change (String.eqb "ite" "select") with false. change (String.eqb "ite" "ite") with true. cbv iota.
       unfold mk_ite, bvw. rewrite Ht. reflexivity.
-    - rewrite sxi_list_eq. cbn [sxi_list]. rewrite (head_item "=" eq_refl eq_refl eq_refl), Hc.
+    - rewrite sxi_list_eq. cbn [SmtParseProofs.sxi_list]. rewrite (head_item "=" eq_refl eq_refl eq_refl), Hc.
       rewrite (lit_item "#b1" 1 1 eq_refl eq_refl). cbn [pbind].
       rewrite (pat_binop st "=" mk_equal NBinary c' (BVLiteral 1 1) (BVEqual c' (BVLiteral 1 1)) eq_refl eq_refl eq_refl); [reflexivity|].
       unfold mk_equal. rewrite Ht. reflexivity.
@@ -239,7 +316,7 @@ Section Ser.
     (forall n t, In (n, t) (l1 ++ l2) -> Q n t) -> forall n t, In (n, t) l2 -> Q n t.
   Proof. intros H n t Hx. apply H, in_or_app. now right. Qed.
 
-  Ltac group := rewrite sxi_list_eq; cbn [sxi_list].
+  Ltac group := rewrite sxi_list_eq; cbn [SmtParseProofs.sxi_list].
   Ltac head h := rewrite (head_item h eq_refl eq_refl eq_refl).
 
   (* binary operator written with head [h], read with builder [op] *)
@@ -277,11 +354,11 @@ Section Ser.
       | n iw dw | a IHa iw dw | a IHa b IHb | a IHa b IHb c IHc | a IHa b IHb c IHc ];
       intros Hwt Hbu Hix Hsy mb; rewrite ser_eq, rt_eq;
       (apply sxi_wrap; [| rewrite rt_core_as_rt; now apply rt_type]);
-      cbn [ser_core rt_core consumes_bv]; cbn [built idx32 symbols] in Hbu, Hix, Hsy;
+      cbn [SmtSerProofs.ser_core rt_core consumes_bv]; cbn [built idx32 symbols] in Hbu, Hix, Hsy;
       repeat rewrite andb_true_iff in Hbu; repeat rewrite andb_true_iff in Hix.
     - (* BVSymbol *)
       destruct (Hsy n (TBV w) (or_introl eq_refl)) as [Hn Ha].
-      cbn [sxi]. rewrite (atom_symbol st n _ Hn Ha). reflexivity.
+      cbn [SmtParseProofs.sxi]. rewrite (atom_symbol st n _ Hn Ha). reflexivity.
     - (* BVLiteral *)
       apply wt_lit in Hwt. destruct Hwt as [Hw Hv].
       destruct (N.ltb_spec 1 w) as [H1 | H1].
@@ -396,7 +473,7 @@ Section Ser.
       cbn [ty_eqb]. rewrite !N.eqb_refl. reflexivity.
     - (* ArraySymbol *)
       destruct (Hsy n (TArr iw dw) (or_introl eq_refl)) as [Hn Ha].
-      cbn [sxi]. rewrite (atom_symbol st n _ Hn Ha). reflexivity.
+      cbn [SmtParseProofs.sxi]. rewrite (atom_symbol st n _ Hn Ha). reflexivity.
     - (* ArrayConstant *)
       pose proof Hwt as Hinv. apply wt_aconst in Hinv. destruct Hinv as (Hwa & Hta & Hiw).
       destruct Hix as [[Hix1 Hix2] Hia]. apply N.ltb_lt in Hix1, Hix2.
@@ -438,40 +515,69 @@ Proof.
   intros top e mb Hwt Hbu Hix [Hsy Hkeys]. split; [| now apply rt_equiv].
   pose proof (sxi_ser (nst_new top) Hkeys e Hwt Hbu Hix Hsy mb) as Hs.
   destruct (machine_sx (nst_new top) _ _ Hs) as [Hr _].
-  unfold parse_expr_toks, parse_expr_internal, parse_eot.
+  unfold SmtParse.parse_expr_toks, SmtParse.parse_expr_internal, SmtParse.parse_eot.
   rewrite <- (app_nil_r (toks_of_sx (ser e mb))). rewrite (Hr [] [] I). reflexivity.
 Qed.
 
-(** what precedes the end of the input is processed the same way whatever follows *)
-Lemma run_app_cases p q stk st o :
-  match run p stk st o with
-  | POk (r, st', rest) => run (p ++ q) stk st o = POk (r, st', rest ++ q)
-  | PErr => run (p ++ q) stk st o = PErr
-  | PPanic => True
+(** the machine up to the end of a token list: either it has returned, or it is in some state *)
+Fixpoint run_state (p : list ltok) (stack : list pitem) (st : nst) (orphan : bool)
+  : pres (eot * nst * list ltok) + (list pitem * nst * bool) :=
+  match p with
+  | [] => inr (stack, st, orphan)
+  | tok :: rest =>
+      match step tok stack st orphan with
+      | POk (stack', st', orphan') =>
+          match machine_done stack' with
+          | Some r => inl (POk (r, st', rest))
+          | None => run_state rest stack' st' orphan'
+          end
+      | PErr => inl PErr
+      | PPanic => inl PPanic
+      end
+  end.
+
+(** what the machine answers when the tokens end before an expression is complete:
+    the [todo!] of the current code, an error in the repaired code *)
+Definition end_of_tokens : pres (eot * nst * list ltok) := match cv with Cur => PPanic | Fix => PErr end.
+
+Lemma run_app_state p q stk st o :
+  run (p ++ q) stk st o =
+  match run_state p stk st o with
+  | inl (POk (r, st', rest)) => POk (r, st', rest ++ q)
+  | inl PErr => PErr
+  | inl PPanic => PPanic
+  | inr (stk', st', o') => run q stk' st' o'
   end.
 Proof.
-  revert stk st o. induction p as [|tok p IH]; intros stk st o; cbn [run app]; [exact I|].
+  revert stk st o. induction p as [|tok p IH]; intros stk st o; cbn [SmtParse.run app run_state]; [reflexivity|].
   destruct (step tok stk st o) as [[[stk' st'] o'] | |]; try reflexivity.
   destruct (machine_done stk'); [reflexivity | apply IH].
 Qed.
 
-(** every proper prefix (in tokens) of the writer's output makes the reader panic: the
-    [todo!] at the end of the token stream *)
-Theorem truncated_panics_lemma :
+Lemma run_nil stk st o : run [] stk st o = end_of_tokens.
+Proof. reflexivity. Qed.
+
+(** every proper prefix (in tokens) of the writer's output: the machine reaches the end of the
+    tokens without having returned *)
+Theorem truncated_lemma :
   forall (top : symtab) (e : expr) (mb : bool) (p q : list ltok),
     wt e = true -> built e = true -> idx32 e = true -> table_for top e ->
     toks_of_sx (ser e mb) = p ++ q -> q <> [] ->
-    parse_expr_toks top p = PPanic.
+    parse_expr_toks top p = match cv with Cur => PPanic | Fix => PErr end.
 Proof.
   intros top e mb p q Hwt Hbu Hix [Hsy Hkeys] Hpq Hq.
   pose proof (sxi_ser (nst_new top) Hkeys e Hwt Hbu Hix Hsy mb) as Hs.
   destruct (machine_sx (nst_new top) _ _ Hs) as [Hr _].
-  pose proof (Hr [] [] I) as Hfull. rewrite app_nil_r, Hpq in Hfull. unfold cont in Hfull. cbn [machine_done] in Hfull.
-  pose proof (run_app_cases p q [] (nst_new top) false) as Hc.
-  unfold parse_expr_toks, parse_expr_internal, parse_eot.
-  destruct (run p [] (nst_new top) false) as [[[r st'] rest] | |]; [| | reflexivity].
-  - rewrite Hc in Hfull. inversion Hfull as [[H1 H2 H3]]. destruct rest; [|discriminate H3]. cbn in H3. congruence.
-  - rewrite Hc in Hfull. discriminate Hfull.
+  pose proof (Hr [] [] I) as Hfull. rewrite app_nil_r, Hpq in Hfull.
+  unfold SmtParseProofs.cont in Hfull. cbn [machine_done] in Hfull.
+  rewrite run_app_state in Hfull.
+  unfold SmtParse.parse_expr_toks, SmtParse.parse_expr_internal, SmtParse.parse_eot.
+  rewrite <- (app_nil_r p), run_app_state.
+  destruct (run_state p [] (nst_new top) false) as [[[[r st'] rest] | |] | [[stk' st'] o']].
+  - inversion Hfull as [[H1 H2 H3]]. destruct rest; [|discriminate H3]. cbn in H3. congruence.
+  - discriminate Hfull.
+  - discriminate Hfull.
+  - rewrite run_nil. unfold end_of_tokens. destruct cv; reflexivity.
 Qed.
 
 (** anything but a comment after the writer's output is reported as an error *)
@@ -484,33 +590,66 @@ Proof.
   intros top e mb t q Hwt Hbu Hix [Hsy Hkeys] Hc Hp.
   pose proof (sxi_ser (nst_new top) Hkeys e Hwt Hbu Hix Hsy mb) as Hs.
   destruct (machine_sx (nst_new top) _ _ Hs) as [Hr _].
-  unfold parse_expr_toks, parse_expr_internal, parse_eot. rewrite (Hr [] (t :: q) I).
-  unfold cont. cbn [machine_done pbind next_no_comment]. destruct t; try congruence; reflexivity.
+  unfold SmtParse.parse_expr_toks, SmtParse.parse_expr_internal, SmtParse.parse_eot. rewrite (Hr [] (t :: q) I).
+  unfold SmtParseProofs.cont. cbn [machine_done pbind next_no_comment]. destruct t; try congruence; reflexivity.
 Qed.
 
-(** ** concrete witnesses of the recorded defects *)
+End CV.
 
-Lemma malformed_witness : exists s : string, parse_expr_str [] s = PPanic.
+(** ** the current code: truncated output panics; concrete witnesses of the recorded defects *)
+
+Theorem truncated_panics_lemma :
+  forall (top : symtab) (e : expr) (mb : bool) (p q : list ltok),
+    wt e = true -> built e = true -> idx32 e = true -> table_for Cur top e ->
+    toks_of_sx (ser Cur e mb) = p ++ q -> q <> [] ->
+    parse_expr_toks Cur top p = PPanic.
+Proof. exact (truncated_lemma Cur). Qed.
+
+(** ** the repaired code: truncated output is an error *)
+
+Theorem truncated_is_error_fix :
+  forall (top : symtab) (e : expr) (mb : bool) (p q : list ltok),
+    wt e = true -> built e = true -> idx32 e = true -> table_for Fix top e ->
+    toks_of_sx (ser Fix e mb) = p ++ q -> q <> [] ->
+    parse_expr_toks Fix top p = PErr.
+Proof. exact (truncated_lemma Fix). Qed.
+
+Lemma malformed_witness : exists s : string, parse_expr_str Cur [] s = PPanic.
 Proof. exists "(bvadd #b01 ". vm_compute. reflexivity. Qed.
 
 Lemma lexer_panics_witness :
-  parse_expr_str [] "true ;
-" = PPanic /\ parse_expr_str [] "(bvnot |a" = PPanic.
+  parse_expr_str Cur [] "true ;
+" = PPanic /\ parse_expr_str Cur [] "(bvnot |a" = PPanic.
 Proof. split; vm_compute; reflexivity. Qed.
 
 Lemma read_command_witness :
-  read_command [] ["(assert (= a"] = RcHang /\
+  read_command Cur [] ["(assert (= a"] = RcHang /\
   (exists c top' rest,
-      read_command [] ["(declare-const |(| Bool)
+      read_command Cur [] ["(declare-const |(| Bool)
 "; "(exit)
 "; ")
 "] = RcCmd c top' rest /\ rest = []) /\
-  read_command [] ["(declare-const |(| Bool)
+  read_command Cur [] ["(declare-const |(| Bool)
 "; "(exit)
 "] = RcHang /\
-  read_command [] ["(get-unsat-assumptions)
+  read_command Cur [] ["(get-unsat-assumptions)
 "] = RcPanic.
 Proof.
   split; [vm_compute; reflexivity | split; [| split; vm_compute; reflexivity]].
   eexists. eexists. eexists. split; [vm_compute; reflexivity | reflexivity].
 Qed.
+
+(** the same inputs in the repaired code *)
+Lemma repaired_witness :
+  parse_expr_str Fix [] "(bvadd #b01 " = PErr /\
+  parse_expr_str Fix [] "true ;
+" = POk (BVLiteral 1 1) /\
+  parse_expr_str Fix [] "(bvnot |a" = PErr /\
+  read_command Fix [] ["(assert (= a"] = RcErr /\
+  (exists top', read_command Fix [] ["(declare-const |(| Bool)
+"; "(exit)
+"] = RcCmd (CDeclareConst (BVSymbol "(" 1)) top' ["(exit)
+"]) /\
+  (exists top', read_command Fix [] ["(get-unsat-assumptions)
+"] = RcCmd CGetUnsatAssumptions top' []).
+Proof. repeat split; try (vm_compute; reflexivity); eexists; vm_compute; reflexivity. Qed.
